@@ -72,6 +72,26 @@ func ambCountOf(s string) int {
 	return n
 }
 
+// udAmbShare: the pair's ambiguous consequential sites and all its consequential sites (the two numbers --threshold-pair compares).
+func udAmbShare(ref, q, t string) (amb, sum int) {
+	for i := 0; i < len(ref); i++ {
+		r, a, b := upper(ref[i]), upper(q[i]), upper(t[i])
+		if isACGT(a) && a != r { // a query SNP: ambiguous in the target, shared, or the query's own
+			sum++
+			if !isACGT(b) {
+				amb++
+			}
+		}
+		if isACGT(b) && b != r && a != b { // a target SNP the query does not share
+			sum++
+			if !isACGT(a) {
+				amb++
+			}
+		}
+	}
+	return
+}
+
 // udClassify: bin, distance and whether the pair passes the pairwise ambiguity threshold.
 func udClassify(ref, q, t string, thresh float32) (bin, dist int, pass bool) {
 	qonly, tonly, shared, amb := 0, 0, 0, 0
@@ -332,6 +352,7 @@ func c08Validate(c c08Case, rows map[string]*udRow, out string, o *Obs) error {
 	o.LabelIf(op.Table, "table")
 	o.LabelIf(op.DistPush > 0, "dist-push")
 	o.LabelIf(op.SizeTotal > 0, "size-total")
+	o.LabelIf(op.ThreshP != 0 && op.ThreshP != 0.1 && op.ThreshP != 0.25 && op.ThreshP != 0.5 && op.ThreshP != 1, "threshold-pair-equals-a-pair-share")
 	o.LabelIf(op.SizeTotal > 0 && (op.SizeUp != 0 || op.SizeDown != 0 || op.SizeSame != 0 || op.SizeSide != 0), "size-total-overrides-per-bin-sizes")
 	o.LabelIf(op.DistAll > 0 && (op.DistUp != 0 || op.DistDown != 0 || op.DistSide != 0), "dist-all-overrides-per-bin-dists")
 	o.LabelIf(limit != udInf && op.SizeTotal == 0, "size-per-bin")
@@ -724,6 +745,28 @@ func genC08(t *rapid.T) c08Case {
 	c.Ref, c.Queries, c.Targets = genUDInput(t, 1, false)
 	shareNames(t, c.Queries, c.Targets)
 	c.Opts = genUDOpts(t, c.Targets, len(c.Ref))
+	if len(c.Targets) > 0 && rapid.IntRange(0, 3).Draw(t, "thresholdOnAPair") == 0 {
+		// --threshold-pair exactly equal to the ambiguous share of one of the pairs ("up to this proportion is allowed")
+		q := c.Queries[rapid.IntRange(0, len(c.Queries)-1).Draw(t, "tieQuery")]
+		tg := c.Targets[rapid.IntRange(0, len(c.Targets)-1).Draw(t, "tieTarget")]
+		if kn := rapid.SampledFrom([][2]int{{0, 0}, {5, 6}, {7, 10}, {9, 10}, {5, 12}, {7, 12}, {1, 3}, {3, 7}}).Draw(t, "tieShape"); kn[1] > 0 && len(c.Ref) >= kn[1] && strings.Trim(strings.ToUpper(c.Ref[:kn[1]]), "ACGT") == "" {
+			// a pair built for the purpose: n SNPs in the query, k of them under N in the target
+			qb := []byte(strings.ToUpper(c.Ref))
+			for i := 0; i < kn[1]; i++ {
+				qb[i] = transitionOf(qb[i])
+			}
+			tb := append([]byte(nil), qb...)
+			for i := 0; i < kn[0]; i++ {
+				tb[i] = 'N'
+			}
+			q, tg = FaRec{ID: "tieq", Seq: string(qb)}, FaRec{ID: "tiet", Seq: string(tb)}
+			c.Queries = append(c.Queries, q)
+			c.Targets = append(c.Targets, tg)
+		}
+		if amb, sum := udAmbShare(c.Ref, q.Seq, tg.Seq); amb > 0 && sum > 0 {
+			c.Opts.ThreshP = float32(amb) / float32(sum)
+		}
+	}
 	c.CLI = rapid.IntRange(0, 19).Draw(t, "cli") == 0
 	if rapid.IntRange(0, 2).Draw(t, "mixedInputs") == 0 {
 		c.QCSV = rapid.Bool().Draw(t, "queryCSV")
